@@ -48,6 +48,21 @@ func convert(res *kit.Result, c Case, src []byte) (doc *document.Document, saved
 	var err error
 	var p interface{}
 	var st string
+	// one Converter per case; the warm-up documents of the case go through it first. What it returns for the
+	// judged input must not depend on them.
+	cv := markdown.NewConverter(co)
+	for i, w := range c.Warm {
+		p, st = kit.Try(func() { _, err = cv.ConvertString(w, co) })
+		res.Eval("C19.M0")
+		if p != nil {
+			res.Fail("C19.M0", "conversion of warm-up document %d on the shared converter panicked: %v [%s]", i, p, st)
+			return nil, nil, false
+		}
+		if err != nil {
+			res.Fail("C19.M0", "conversion of warm-up document %d returned an error instead of a document: %v", i, err)
+			return nil, nil, false
+		}
+	}
 	switch c.Entry {
 	case "file":
 		dir, _ := os.MkdirTemp(kit.Scratch, "c19-")
@@ -57,14 +72,14 @@ func convert(res *kit.Result, c Case, src []byte) (doc *document.Document, saved
 			res.Count("scratch_write_errors", 1)
 			return nil, nil, false
 		}
-		p, st = kit.Try(func() { err = markdown.NewConverter(co).ConvertFile(in, outp, co) })
+		p, st = kit.Try(func() { err = cv.ConvertFile(in, outp, co) })
 		if p == nil && err == nil {
 			saved, err = os.ReadFile(outp)
 		}
 	case "string":
-		p, st = kit.Try(func() { doc, err = markdown.NewConverter(co).ConvertString(string(src), co) })
+		p, st = kit.Try(func() { doc, err = cv.ConvertString(string(src), co) })
 	default:
-		p, st = kit.Try(func() { doc, err = markdown.NewConverter(co).ConvertBytes(src, co) })
+		p, st = kit.Try(func() { doc, err = cv.ConvertBytes(src, co) })
 	}
 	res.Eval("C19.M0")
 	if p != nil {
@@ -98,6 +113,7 @@ func runBytes(c Case) *kit.Result {
 	res := &kit.Result{}
 	src := c.Bytes()
 	res.Label("kind:bytes")
+	reuseLabel(res, c)
 	res.Label("bytes:" + c.Cls)
 	res.Label("entry:" + c.Entry)
 	doc, saved, _ := convert(res, c, src)
@@ -129,6 +145,36 @@ func runBytes(c Case) *kit.Result {
 	}
 	res.Shape = "bytes|" + c.Cls + "|" + optLabel(c.Opts) + "|" + strings.Join(ks, "\x00") + fmt.Sprint(len(src)/64, n)
 	return res
+}
+
+func reuseLabel(res *kit.Result, c Case) {
+	if len(c.Warm) > 0 {
+		res.Label("converter:reused")
+	} else {
+		res.Label("converter:fresh")
+	}
+}
+
+// a fenced block with indented fences and a content line that starts with a tab (top level or nested)
+func hasFenceTab(bs []Blk) bool {
+	for _, b := range bs {
+		if b.K == "code" && fenceIndent(b) > 0 {
+			for _, l := range b.Lines {
+				if strings.HasPrefix(l, "\t") {
+					return true
+				}
+			}
+		}
+		if hasFenceTab(b.B) {
+			return true
+		}
+		for _, it := range b.Items {
+			if hasFenceTab(it.B) {
+				return true
+			}
+		}
+	}
+	return false
 }
 
 func trunc(s string, n int) string {
@@ -191,7 +237,7 @@ func sig(bs []Blk) string {
 			sb.WriteString(itoa(len(b.Head)) + "x" + itoa(len(b.Rows)) + strings.Join(b.Aligns, ","))
 		}
 		if b.K == "code" {
-			sb.WriteString(itoa(len(b.Lines)))
+			sb.WriteString(itoa(len(b.Lines)) + "i" + itoa(fenceIndent(b)))
 		}
 		for _, x := range b.I {
 			sb.WriteString(x.K[:1])
@@ -210,6 +256,10 @@ func sig(bs []Blk) string {
 func runAST(c Case) *kit.Result {
 	res := &kit.Result{}
 	res.Label("kind:ast")
+	reuseLabel(res, c)
+	if hasFenceTab(c.Doc) {
+		res.Label("code:indented-fence+tab")
+	}
 	res.Label("entry:" + c.Entry)
 	src := []byte(c.Markdown())
 	bk, ik := map[string]bool{}, map[string]bool{}
@@ -288,7 +338,7 @@ func runAST(c Case) *kit.Result {
 		ks = append(ks, k)
 	}
 	sort.Strings(ks)
-	res.Shape = "ast|" + optLabel(c.Opts) + "|" + sig(c.Doc) + "|" + strings.Join(ks, ",")
+	res.Shape = "ast|" + optLabel(c.Opts) + "|w" + itoa(len(c.Warm)) + "|" + sig(c.Doc) + "|" + strings.Join(ks, ",")
 	return res
 }
 
@@ -309,7 +359,7 @@ func TestC19(t *testing.T) {
 	}
 	kit.Main(t, kit.Spec[Case]{
 		ID: "C19", Level: "exploration",
-		Rule: "about 35% totality cases (random bytes, random UTF-8, Markdown token soup, one token repeated up to 1500x (thorough 6000x), huge pipe tables, unbalanced $, LaTeX soup, slices of a document using every construct re-assembled with soup tokens; entry points ConvertBytes/ConvertString/ConvertFile; LaTeXToOMMLString on the same bytes) and 65% fidelity cases (Markdown AST of 1-7 (thorough 1-12) top-level blocks serialised canonically, words from a safe alphabet), each under a drawn combination of GFM/tables/task lists/math/footnotes/TOC/TOC level; a fidelity case is judged only if the AST reading equals the reading of goldmark's HTML (else discarded and counted); 3/4 of the fidelity cases are built only from forms outside every open finding's input class (label judged:unmasked), 1/4 carry one such class. Non-trivial: fidelity = judged case with >=3 block kinds and >=2 inline kinds; totality = conversion produced >=1 body element. Distinct = option set + block/inline structure signature (fidelity) or class + first tokens + size bucket (totality)",
+		Rule: "about 35% totality cases (random bytes, random UTF-8, Markdown token soup, one token repeated up to 1500x (thorough 6000x), huge pipe tables, unbalanced $, LaTeX soup, slices of a document using every construct re-assembled with soup tokens; entry points ConvertBytes/ConvertString/ConvertFile; LaTeXToOMMLString on the same bytes) and 65% fidelity cases (Markdown AST of 1-7 (thorough 1-12) top-level blocks serialised canonically, words from a safe alphabet), each under a drawn combination of GFM/tables/task lists/math/footnotes/TOC/TOC level; in 40% of all cases the Converter has first converted 1-2 other documents (link reference, footnote, heading-id, math, table definitions; expected result unchanged); a fidelity case is judged only if the AST reading equals the reading of goldmark's HTML (else discarded and counted); 3/4 of the fidelity cases are built only from forms outside every open finding's input class (label judged:unmasked), 1/4 carry one such class. Non-trivial: fidelity = judged case with >=3 block kinds and >=2 inline kinds; totality = conversion produced >=1 body element. Distinct = option set + block/inline structure signature (fidelity) or class + first tokens + size bucket (totality)",
 		Gen:  genCase, Run: run, Findings: findings, Fixed: fixedCases,
 		Assumptions: []string{
 			"the visible text of a document is the text of the runs of its body paragraphs and table cells, in body order; list bullets, numbers and check-box glyphs at the start of a list paragraph and the blank standing for an empty code line are not text",
@@ -320,6 +370,7 @@ func TestC19(t *testing.T) {
 		},
 		MustSee: map[string]float64{"kind:bytes": 0.2, "kind:ast": 0.5, "judged": 0.45, "judged:unmasked": 0.3, "blk:tbl": 0.08, "blk:code-fenced": 0.1, "blk:code-indented": 0.04,
 			"blk:ul": 0.12, "blk:ol": 0.05, "blk:task": 0.04, "blk:bq": 0.08, "blk:h": 0.15, "blk:h-setext": 0.05, "blk:hr": 0.05, "inl:em": 0.1, "inl:st": 0.1, "inl:code": 0.1, "inl:link": 0.1, "inl:sb": 0.1, "inl:del": 0.05, "blk:math": 0.03, "inl:math": 0.05,
-			"bytes:soup": 0.05, "bytes:deep": 0.01, "bytes:table": 0.01, "bytes:dollar": 0.008, "bytes:splice": 0.03, "entry:file": 0.03},
+			"bytes:soup": 0.05, "bytes:deep": 0.01, "bytes:table": 0.01, "bytes:dollar": 0.008, "bytes:splice": 0.03, "entry:file": 0.03,
+			"converter:reused": 0.25, "converter:fresh": 0.3, "inl:br": 0.15, "code:indented-fence+tab": 0.03},
 	})
 }
